@@ -651,6 +651,18 @@ def native_shapes(rng):
     ops = [['phi_1D', 1.0], ['split', 1], ['integrate', T1 / 2 / Ne, [['c', N1 / Ne], ['c', Nbc / Ne]], None, None], ['split', 2],
            ['integrate', T2 / 2 / Ne, [['c', N1 / Ne], ['c', N2 / Ne], ['l', N3a / Ne, N3b / Ne]], [[0, 0, 0], [0, 0, Mbc], [0, Mbc, 0]], None]]
     out.append(('tree3', g, ['A', 'B', 'C'], [2, 2, 2], None, 10, ops))
+    # 4b. the same tree with a two-source pulse (A, C) -> B (destination in the middle)
+    f1 = rng.choice([1 / 16, 1 / 8, 3 / 16]); f2 = rng.choice([1 / 8, 1 / 4]); tp = T2 / 4
+    g = builder([{'name': 'anc', 'epochs': [{'end_time': T1 + T2, 'start_size': Ne}]},
+                 {'name': 'A', 'ancestors': ['anc'], 'epochs': [{'end_time': 0, 'start_size': N1}]},
+                 {'name': 'BC', 'ancestors': ['anc'], 'epochs': [{'end_time': T2, 'start_size': Nbc}]},
+                 {'name': 'B', 'ancestors': ['BC'], 'epochs': [{'end_time': 0, 'start_size': N2}]},
+                 {'name': 'C', 'ancestors': ['BC'], 'epochs': [{'end_time': 0, 'start_size': N3a}]}],
+                None, [{'sources': ['A', 'C'], 'dest': 'B', 'time': tp, 'proportions': [f1, f2]}])
+    c3 = [['c', N1 / Ne], ['c', N2 / Ne], ['c', N3a / Ne]]
+    ops = [['phi_1D', 1.0], ['split', 1], ['integrate', T1 / 2 / Ne, [['c', N1 / Ne], ['c', Nbc / Ne]], None, None], ['split', 2],
+           ['integrate', (T2 - tp) / 2 / Ne, c3, None, None], ['pulse', 2, [f1, f2]], ['integrate', tp / 2 / Ne, c3, None, None]]
+    out.append(('pulse3', g, ['A', 'B', 'C'], [2, 2, 2], None, 10, ops))
     # 5. ancient sample as a native frozen population
     ta = T2 / 4
     g = builder([{'name': 'anc', 'epochs': [{'end_time': T2, 'start_size': Ne}]},
